@@ -67,6 +67,23 @@ PROPS = {
                  'hasher feeds every chunk read exactly once, finalises after the last chunk into the member copy() reads',
         'not_decided': ['the real stat/readlink/MD5 (assumed models)', 'the symlink readlink path content'],
     },
+    'C14': {
+        'units': ['prefix'],
+        'level': 'other',
+        'design_ref': 'DESIGN.md section 4, C14',
+        'claim': 'pathIsPrefixedByPath agrees with the component-wise prefix specification taken from the property statement (one trailing '
+                 'separator of the root ignored) -- BOUNDED: all pairs of strings of length <= 6 over all byte values',
+        'not_decided': ['StaleFileRemovalCommand::execute and computeFilesToDelete (not under contract at this commit)', 'strings longer than the bound',
+                        'recursive directory removal (FileSystem::remove)'],
+    },
+    'C15': {
+        'units': ['buildkey'],
+        'design_ref': 'DESIGN.md section 4, C15',
+        'claim': 'BuildKey: kind tag <-> kind maps are inverse on the nine kinds and distinct (spec table checked for distinctness), getKind reads the '
+                 'tag byte, and every accessor of the two wire shapes returns exactly the length-delimited name / payload span for arbitrary bytes '
+                 '(keys shorter than 2^32 bytes)',
+        'not_decided': ['the key constructors (std::string building)', 'BuildValue toData / decoder and StringList', 'BinaryEncoder / BinaryDecoder scalar codecs'],
+    },
     'C17': {
         'units': ['ninja_lex'],
         'design_ref': 'DESIGN.md section 4, C17',
